@@ -20,12 +20,23 @@ type State struct {
 	cells map[*ssa.Alloc]Value
 	heap  *Heap
 	ghost map[string]*Term
+	regs  map[ssa.Value]Value
+}
+
+func (x *FnCtx) setReg(st *State, v ssa.Value, val Value) {
+	if st.regs == nil {
+		st.regs = map[ssa.Value]Value{}
+	}
+	st.regs[v] = val
 }
 
 func (s *State) Clone() *State {
-	n := &State{pc: s.pc, cells: make(map[*ssa.Alloc]Value, len(s.cells)), heap: s.heap.Clone(), ghost: map[string]*Term{}}
+	n := &State{pc: s.pc, cells: make(map[*ssa.Alloc]Value, len(s.cells)), heap: s.heap.Clone(), ghost: map[string]*Term{}, regs: make(map[ssa.Value]Value, len(s.regs))}
 	for k, v := range s.cells {
 		n.cells[k] = v
+	}
+	for k, v := range s.regs {
+		n.regs[k] = v
 	}
 	for k, v := range s.ghost {
 		n.ghost[k] = v
@@ -35,7 +46,6 @@ func (s *State) Clone() *State {
 
 type Frame struct {
 	fn      *ssa.Function
-	regs    map[ssa.Value]Value
 	params  []Value
 	depth   int
 	prefix  string // obligation name prefix for inlined frames
@@ -232,7 +242,7 @@ func (x *FnCtx) val(fr *Frame, st *State, v ssa.Value) Value {
 		}
 		return UnknownV{"free variable"}
 	}
-	if r, ok := fr.regs[v]; ok {
+	if r, ok := st.regs[v]; ok {
 		return r
 	}
 	x.errs = append(x.errs, fmt.Sprintf("no value for %s (%T) in %s", v.Name(), v, fr.fn.Name()))
@@ -811,8 +821,13 @@ func (x *FnCtx) mergeStates(es []edge) *State {
 		pcs = append(pcs, e.st.pc)
 		heaps = append(heaps, e.st.heap)
 	}
-	out := &State{pc: x.mergePC(pcs), cells: map[*ssa.Alloc]Value{}, ghost: map[string]*Term{}}
+	out := &State{pc: x.mergePC(pcs), cells: map[*ssa.Alloc]Value{}, ghost: map[string]*Term{}, regs: map[ssa.Value]Value{}}
 	out.heap = x.mergeHeaps(pcs, heaps)
+	for _, e := range es {
+		for k, v := range e.st.regs {
+			out.regs[k] = v
+		}
+	}
 	cellKeys := map[*ssa.Alloc]bool{}
 	for _, e := range es {
 		for k := range e.st.cells {
@@ -881,31 +896,16 @@ func (x *FnCtx) run(fr *Frame, st0 *State) []retInfo {
 	}
 	lentries := map[*ssa.BasicBlock]*loopEntry{}
 	retOrd := 0
-	for _, b := range order {
-		es := in[b]
-		if len(es) == 0 {
-			continue
-		}
-		st := x.mergeStates(es)
-		if len(es) > 1 {
-			st = st.Clone()
-		}
+	split := fr.ctr != nil && fr.ctr.Split && fr.depth == 0
+	var process func(b *ssa.BasicBlock, st *State)
+	process = func(b *ssa.BasicBlock, st *State) {
 		if st.pc.IsFalse() {
-			continue
+			return
 		}
 		if li, ok := loops[b]; ok {
 			le := &loopEntry{li: li}
 			lentries[b] = le
 			st = x.enterLoop(fr, st, li, &le.pre, &le.decr)
-		}
-		var term ssa.Instruction
-		for _, instr := range b.Instrs {
-			switch instr.(type) {
-			case *ssa.If, *ssa.Jump, *ssa.Return, *ssa.Panic:
-				term = instr
-			default:
-				x.step(fr, st, instr)
-			}
 		}
 		goEdge := func(succ *ssa.BasicBlock, s *State) {
 			if s.pc.IsFalse() {
@@ -921,27 +921,87 @@ func (x *FnCtx) run(fr *Frame, st0 *State) []retInfo {
 			fr.setPhiPC(b, succ, s.pc)
 			in[succ] = append(in[succ], edge{b, s})
 		}
-		switch t := term.(type) {
-		case *ssa.Jump:
-			goEdge(b.Succs[0], st)
-		case *ssa.If:
-			c := x.term(fr, st, t.Cond)
-			s1 := st.Clone()
-			s1.pc = x.tb.And(st.pc, c)
-			s2 := st
-			s2.pc = x.tb.And(st.pc, x.tb.Not(c))
-			goEdge(b.Succs[0], s1)
-			goEdge(b.Succs[1], s2)
-		case *ssa.Return:
-			retOrd++
-			var rs []Value
-			for _, r := range t.Results {
-				rs = append(rs, x.val(fr, st, r))
-			}
-			rets = append(rets, retInfo{st: st, results: rs, ord: retOrd})
-		case *ssa.Panic:
-			x.safetyOb("unreachable", fr.prefix+fr.siteOrd[t], st, x.tb.False())
+		// continuation queue: a dispatch call in path-sensitive mode forks the state inside the block
+		type cont struct {
+			st  *State
+			idx int
 		}
+		queue := []cont{{st, 0}}
+		for len(queue) > 0 {
+			c := queue[len(queue)-1]
+			queue = queue[:len(queue)-1]
+			cur := c.st
+			var term ssa.Instruction
+			forked := false
+			for i := c.idx; i < len(b.Instrs) && !forked; i++ {
+				instr := b.Instrs[i]
+				switch in := instr.(type) {
+				case *ssa.If, *ssa.Jump, *ssa.Return, *ssa.Panic:
+					term = instr
+				case *ssa.Call:
+					if split {
+						if cands := x.dispatchCands(fr, in); cands != nil {
+							for _, fs := range x.dispatchFork(fr, cur, in, cands) {
+								queue = append(queue, cont{fs, i + 1})
+							}
+							forked = true
+							continue
+						}
+					}
+					x.step(fr, cur, instr)
+				default:
+					x.step(fr, cur, instr)
+				}
+			}
+			if forked {
+				continue
+			}
+			switch t := term.(type) {
+			case *ssa.Jump:
+				goEdge(b.Succs[0], cur)
+			case *ssa.If:
+				cnd := x.term(fr, cur, t.Cond)
+				s1 := cur.Clone()
+				s1.pc = x.tb.And(cur.pc, cnd)
+				s2 := cur
+				s2.pc = x.tb.And(cur.pc, x.tb.Not(cnd))
+				goEdge(b.Succs[0], s1)
+				goEdge(b.Succs[1], s2)
+			case *ssa.Return:
+				retOrd++
+				var rs []Value
+				for _, r := range t.Results {
+					rs = append(rs, x.val(fr, cur, r))
+				}
+				rets = append(rets, retInfo{st: cur, results: rs, ord: retOrd})
+			case *ssa.Panic:
+				x.safetyOb("unreachable", fr.prefix+fr.siteOrd[t], cur, x.tb.False())
+			}
+		}
+	}
+	for _, b := range order {
+		es := in[b]
+		if len(es) == 0 {
+			continue
+		}
+		hasPhi := false
+		for _, instr := range b.Instrs {
+			if _, ok := instr.(*ssa.Phi); ok {
+				hasPhi = true
+			}
+		}
+		if split && len(es) > 1 && !hasPhi && len(es) <= 64 {
+			// path-sensitive mode: no merging, one pass over the block per incoming state
+			for _, e := range es {
+				process(b, e.st.Clone())
+			}
+			continue
+		}
+		st := x.mergeStates(es)
+		if len(es) > 1 {
+			st = st.Clone()
+		}
+		process(b, st)
 	}
 	return rets
 }
